@@ -273,11 +273,72 @@ Section TextLevel.
     rewrite Hl. cbn [length]. f_equal. apply filter_again.
   Qed.
 
+  (* tight or sparse (Project.is_sparse) is decided on the kinds of an item's blocks, a paragraph with text and one
+     without being two kinds; one more pass keeps the kinds *)
+  Definition bkind (b : gblock) : nat :=
+    match b with
+    | GPlain [] | GPara [] => 0
+    | GPlain _ | GPara _ => 1
+    | GCode _ _ => 2
+    | GQuote _ => 3
+    | GBList _ => 4
+    | GOList _ => 5
+    | GHeader _ _ => 6
+    | GRule => 7
+    | GTable _ _ _ => 8
+    end.
+  Definition absorbs_k (a b : nat) : bool :=
+    match a, b with
+    | 1, (7 | 8) => true
+    | 3, (3 | 8) => true
+    | (4 | 5 | 8), 8 => true
+    | _, _ => false
+    end.
+  Fixpoint has_absorbed_k (l : list nat) : bool :=
+    match l with
+    | a :: ((b :: _) as r) => absorbs_k a b || has_absorbed_k r
+    | _ => false
+    end.
+
+  Lemma absorbs_kind a b : absorbs a b = absorbs_k (bkind a) (bkind b).
+  Proof. destruct a as [[|? ?]|[|? ?]| | | | | | |], b as [[|? ?]|[|? ?]| | | | | | |]; reflexivity. Qed.
+
+  Lemma has_absorbed_kind l : has_absorbed l = has_absorbed_k (map bkind l).
+  Proof.
+    induction l as [|a [|b r] IH]; try reflexivity.
+    change (has_absorbed (a :: b :: r)) with (absorbs a b || has_absorbed (b :: r)).
+    rewrite IH, absorbs_kind. reflexivity.
+  Qed.
+
+  Lemma again_kind b : is_paragraph b = false -> bkind (again b) = bkind b.
+  Proof. destruct b; try reflexivity; discriminate. Qed.
+
+  Lemma map_again_kind r : filter is_paragraph r = [] -> map bkind (map again r) = map bkind r.
+  Proof.
+    induction r as [|x r IH]; [reflexivity|]. cbn [filter map]. destruct (is_paragraph x) eqn:E; [discriminate|].
+    intros H. now rewrite (again_kind x E), IH.
+  Qed.
+
+  Lemma item_again_kind it : item_md_settled it = true -> length (filter is_paragraph it) <= 1 ->
+    map bkind (item_again ctx dir o it) = map bkind it.
+  Proof.
+    destruct it as [|h rest]; [reflexivity|]. cbn [item_md_settled]. intros Hs Hle.
+    apply andb_prop in Hs as [Hs _]. apply andb_prop in Hs as [Hs Hn]. apply andb_prop in Hs as [Hp _].
+    cbn [filter] in Hle. rewrite Hp in Hle. cbn [length] in Hle.
+    assert (Hr : filter is_paragraph rest = []) by (destruct (filter is_paragraph rest); [reflexivity | cbn [length] in Hle; lia]).
+    cbn [item_again map]. rewrite (map_again_kind rest Hr). f_equal.
+    unfold lead_kind_stable in Hn. apply Bool.eqb_prop in Hn. unfold lead_again.
+    destruct h as [l|l| | | | | | |]; try discriminate Hp; cbn [gline] in *;
+      destruct (gflag o rest), (line0 ctx dir (rr_inlines o l)), l; try discriminate Hn; reflexivity.
+  Qed.
+
   Lemma sparse_again its : forallb item_md_settled its = true ->
     is_sparse (map (item_again ctx dir o) its) = is_sparse its.
   Proof.
     unfold is_sparse. induction its as [|it r IH]; [reflexivity|]. cbn [forallb map existsb]. intros Hs.
-    apply andb_prop in Hs as [H1 H2]. now rewrite (item_again_paras it H1), IH.
+    apply andb_prop in Hs as [H1 H2]. rewrite (item_again_paras it H1), (IH H2). f_equal.
+    destruct (Nat.ltb 1 (length (filter is_paragraph it))) eqn:E; [reflexivity|]. apply Nat.ltb_ge in E.
+    cbn [orb]. now rewrite !has_absorbed_kind, (item_again_kind it H1 E).
   Qed.
 
   Lemma md_items its : Forall (Forall MB) its -> forallb item_md_settled its = true ->
